@@ -8,13 +8,15 @@ MANIFEST = {
             "identifier, or the vw form of an rpx dimension) with C09_tok_rel_not_ident (anything that is not an "
             "identifier/dimension is unchanged: ids, attribute selectors and values, pseudo names, strings, hashes, "
             "numbers); C09_prefix_none_identity, C09_prefix_only_after_dot, C09_prefix_form (exact form, sign comment, "
-            "source-map name) for the class-name writer. 'Every class selector at every depth' (C09_prefix_exact_full) is "
-            "REFUTED by the model of the current code (`.a:not(:is(.b .c))`, D13). Each run compares the identifier / "
+            "source-map name) for the class-name writer. The whole-sheet statement (C09_prefix_exact_full: identifier/sign "
+            "sequence = specification) is still REFUTED by the model of the current code, now only by D25 (`@import 'a' "
+            "layer(b.t)` prefixes the layer name); the former witness `.a:not(:is(.b .c))` (D13, repaired) satisfies it "
+            "(Example prefix_exact_former_d13). Each run compares the identifier / "
             "sign-comment sequence of the re-tokenised implementation output with the specification's for every "
             "well-formed generated sheet outside the known classes, for prefixes none/empty/ASCII/non-ASCII/needing escapes.",
     "note": "NOT proved: that every `.name` of a selector context outside the known classes IS prefixed (positive half, all "
-            "depths) — differential only (spec vs implementation output on each run). Known: D13 (nested selector functions), "
-            "D14 (@layer/@container/@scope/@starting-style, upper-case at-keywords), D25 (import layer(a.b)).",
+            "depths) — differential only (spec vs implementation output on each run; sheets of the repaired classes D13 / D14 "
+            "are checked like all others now). Known: D25 (import layer(a.b)).",
     "technique": "Coq proof by induction over token trees + refutation witness + executable-spec conformance of the "
                  "implementation output",
 }
